@@ -54,6 +54,13 @@ pub fn dispatch(k: &str, t: &[&str]) -> Option<String> {
                 other => Some(format!("{:?} [] none", other)),
             }
         }
+        "codec_encode_int" => {
+            let e = et(t[1]);
+            let y: i64 = num(t[2]);
+            let c: i64 = num(t[3]);
+            let codec = if t[0] == "Add" { Codec::new(vec![CodecOp::Add(e, y)], vec![e]) } else { Codec::new(vec![CodecOp::ToI64(e)], vec![e]) };
+            Some(format!("{}", codec.encode_int(c)))
+        }
         "column_decode_str" => {
             use crate::stringpack::{IndexedPackedStrings, PackedStrings};
             let kind = t[0];
